@@ -545,6 +545,44 @@ func genTable(run *vlib.Run, r *vlib.Rand, tier string) {
 			}
 		}
 	}
+	// tables with many encoding records: the 16-bit record count and the
+	// 32-bit offsets behind a long directory (255/256/257 records and beyond)
+	manySizes := []int{255, 256, 257, 300}
+	if tier == "thorough" {
+		manySizes = append(manySizes, 511, 512, 513, 1000, 4096)
+	}
+	for _, nk := range manySizes {
+		for variant := 0; variant < 2; variant++ {
+			t := cmap.Table{}
+			var pool [][]byte
+			for len(t) < nk {
+				i := len(t)
+				k := cmap.Key{PlatformID: uint16([]int{0, 2, 3, 4}[i%4]), EncodingID: uint16(i / 4)}
+				var d []byte
+				if variant == 1 && len(pool) > 0 && r.Chance(1, 2) {
+					d = vlib.Pick(r, pool) // shared subtable
+				} else {
+					d = table6(0, r.Intn(60000), 1, []uint16{uint16(1 + i)}, nil)
+					pool = append(pool, d)
+				}
+				t[k] = d
+			}
+			if variant == 1 {
+				// a few Macintosh records with their own languages in between
+				for la := 0; la < 3; la++ {
+					t[cmap.Key{PlatformID: 1, EncodingID: 0, Language: uint16(la)}] = table6(uint16(la), 65, 1, []uint16{7}, nil)
+				}
+			}
+			res := emit(run, vlib.Line(vlib.Atom("tenc"), tableSx(t)), "many-keys")
+			if len(res.impl) > 4 && res.impl[:4] == "(ok " {
+				l, _ := vlib.Parse(res.impl)
+				f, _ := vlib.AsList(l[0])
+				b, _ := vlib.AsBytes(f[1])
+				emit(run, vlib.Line(vlib.Atom("tdec"), vlib.Hex(b)), "many-keys")
+				emit(run, vlib.Line(vlib.Atom("best"), vlib.Hex(b)), "many-keys")
+			}
+		}
+	}
 	tl := func(b []byte) string { return vlib.Line(vlib.Atom("tdec"), vlib.Hex(b)) }
 	bl := func(b []byte) string { return vlib.Line(vlib.Atom("best"), vlib.Hex(b)) }
 	nd := vlib.Count(tier, 700, 20000)
